@@ -369,6 +369,10 @@ func (h *httpHandler) remoteAddr(r *http.Request) (addr net.Addr) {
 		panic(fmt.Sprintf("failed to split host:port %s: %v", r.RemoteAddr, err))
 	}
 
+	// The address of a link-local IPv6 client carries a zone, for example
+	// "[fe80::1%eth0]:443", which is not a part of the IP address itself.
+	ipStr, zone, _ := strings.Cut(ipStr, "%")
+
 	ip, err := netutil.ParseIP(ipStr)
 	if err != nil {
 		panic(fmt.Sprintf("failed to parse IP %s: %v", ipStr, err))
@@ -376,10 +380,10 @@ func (h *httpHandler) remoteAddr(r *http.Request) (addr net.Addr) {
 
 	if NetworkFromAddr(h.localAddr) == NetworkUDP {
 		// This means that we're extracting remoteAddr from an HTTP/3 request.
-		return &net.UDPAddr{IP: ip, Port: int(port)}
+		return &net.UDPAddr{IP: ip, Port: int(port), Zone: zone}
 	}
 
-	return &net.TCPAddr{IP: ip, Port: int(port)}
+	return &net.TCPAddr{IP: ip, Port: int(port), Zone: zone}
 }
 
 // ServeHTTP implements the http.Handler interface for *httpHandler.  It reads
